@@ -79,6 +79,18 @@ type replicaJob struct {
 	Paths    [][]uint16 `json:"paths"`
 }
 
+// replicaVariant: replica 0 is a plain node. Every other replica is also a different kind of node:
+// it is restarted after every block (a new application object over the same database, so nothing
+// but chain state survives a block) and it runs every transaction through CheckTx and Simulate
+// before and after delivering it (handlers executed on states that are thrown away). Responses
+// and app hashes must not depend on any of that.
+func replicaVariant(n *harness.Node, idx int) {
+	if idx > 0 {
+		n.RestartEachBlock = true
+		n.SimulateNoise = true
+	}
+}
+
 type replicaOut struct {
 	// per trace: digest of the transcript after every step
 	Steps [][]string `json:"steps"`
@@ -87,7 +99,7 @@ type replicaOut struct {
 
 // ReplicaMain is the body of `c4emc replica <jobfile> <outfile> [trace-index]`: it rebuilds the scenario,
 // replays every trace through the ABCI driver and writes the transcript digests.
-func ReplicaMain(jobFile, outFile string, only int) int {
+func ReplicaMain(jobFile, outFile string, only int, variant int) int {
 	bz, err := os.ReadFile(jobFile)
 	if err != nil {
 		fmt.Fprintln(os.Stderr, err)
@@ -113,6 +125,7 @@ func ReplicaMain(jobFile, outFile string, only int) int {
 		var tr []string
 		n := harness.NewNode(scn.Genesis, scn.T0)
 		n.Transcript = &tr
+		replicaVariant(n, variant)
 		var digs []string
 		h := sha256.New()
 		done := 0
@@ -194,7 +207,7 @@ func runC11(rc *RunCtx) {
 				// on each of them, so a value derived from the wall clock cannot coincide by accident
 				time.Sleep(time.Duration(r) * 1300 * time.Millisecond)
 				of := filepath.Join(dir, fmt.Sprintf("%s.replica%d.json", name, r))
-				cmd := exec.Command(self, "replica", jobFile, of)
+				cmd := exec.Command(self, "replica", jobFile, of, "-1", fmt.Sprint(r))
 				cmd.Env = append(os.Environ(), fmt.Sprintf("GOMAXPROCS=%d", max(2, 16/replicas)))
 				cmd.Stderr = os.Stderr
 				if err := cmd.Run(); err != nil {
@@ -259,6 +272,7 @@ func runC11(rc *RunCtx) {
 	cov["transitions"] = transitions
 	cov["traces_validated_against_impl"] = totalTraces
 	cov["replicas"] = replicas
+	cov["replica_kinds"] = "replica 0: plain node; every other replica: restarted after every block (new application object over the same database) and running CheckTx + Simulate around every delivered transaction"
 	cov["histories_compared"] = totalTraces
 	cov["abci_steps_compared_per_replica"] = totalSteps
 	cov["samples"] = samples
@@ -284,7 +298,7 @@ func c11Explain(self, jobFile, dir, name string, idx int, events []string, path 
 		if r > 0 {
 			time.Sleep(1300 * time.Millisecond) // a different wall-clock second than the first re-run
 		}
-		cmd := exec.Command(self, "replica", jobFile, of, fmt.Sprint(idx))
+		cmd := exec.Command(self, "replica", jobFile, of, fmt.Sprint(idx), fmt.Sprint(r))
 		if err := cmd.Run(); err != nil {
 			return "(could not re-run for explanation: " + err.Error() + ")"
 		}
